@@ -653,6 +653,23 @@ func (fr *Frame) loopHead(b *ssa.BasicBlock, li *loopInfo) Heap {
 		n := u.fresh("phi_"+phi.Comment+"_"+phi.Name(), s)
 		fr.vals[phi] = Val{T: n, Ty: phi.Type(), S: s}
 		u.assume(implies(fr.reach[b.Index], u.typeInv(n, phi.Type(), fr.ctr(heap))))
+		if phi.Comment == "rangeindex" && isRangeIndexPhi(phi) && !u.so.bv {
+			// SSA range-loop pattern k = phi(-1, k+1): k >= -1 is inductive by construction;
+			// the increment happens only after the test k+1 < bound, so k < bound (or k == -1)
+			u.assume(app("<=", "(- 1)", n))
+			if iff, ok := b.Instrs[len(b.Instrs)-1].(*ssa.If); ok {
+				if cmp, ok := iff.Cond.(*ssa.BinOp); ok && cmp.Op == token.LSS {
+					if inc, ok := cmp.X.(*ssa.BinOp); ok && inc.Op == token.ADD && inc.X == phi {
+						if bi, isIns := cmp.Y.(ssa.Instruction); !isIns || !li.body[bi.Block().Index] {
+							if b.Succs[1] != nil && !li.body[b.Succs[1].Index] {
+								bound := fr.valOf(cmp.Y).T
+								u.assume(or(eq(n, "(- 1)"), app("<", n, bound)))
+							}
+						}
+					}
+				}
+			}
+		}
 	}
 	// implicit frame invariant
 	if fr.frameAllowed != nil {
@@ -673,7 +690,7 @@ func (fr *Frame) loopHead(b *ssa.BasicBlock, li *loopInfo) Heap {
 			m := env.eval(li.spec.Decreases.Expr)
 			li.m0 = u.define("measure", m.S, m.T)
 		}
-		if li.spec.Split != nil {
+		if li.spec.Split != nil && u.active(li.spec.Split.Props) {
 			v := env.eval(li.spec.Split.Expr)
 			t := u.define("split", v.S, v.T)
 			u.splits = append(u.splits, splitInfo{term: t, sort: v.S, lo: li.spec.SplitLo, hi: li.spec.SplitHi, from: len(u.obls), reach: fr.reach[b.Index], text: li.spec.Split.Text})
@@ -693,6 +710,14 @@ func (fr *Frame) bindLoopLets(li *loopInfo, env *Env) {
 }
 
 // frameFormula: forall pre-existing refs not allowed by modifies, comp is unchanged since entry.
+func (fr *Frame) topEntryHeap() Heap {
+	f := fr
+	for f.parent != nil {
+		f = f.parent
+	}
+	return f.entryHeap
+}
+
 func (fr *Frame) frameFormula(c string, h Heap) string {
 	u := fr.u
 	if c == "ctr" {
@@ -700,19 +725,20 @@ func (fr *Frame) frameFormula(c string, h Heap) string {
 	}
 	s := u.comps[c]
 	cur := u.comp(h, c, s)
-	old := u.comp(fr.entryHeap, c, s)
+	entry := fr.topEntryHeap()
+	old := u.comp(entry, c, s)
 	if cur == old {
 		return ""
 	}
 	if strings.HasPrefix(c, "G_") {
-		allowed := fr.frameAllowed(c, "", fr.entryHeap)
+		allowed := fr.frameAllowed(c, "", entry)
 		return or(allowed, eq(cur, old))
 	}
-	allowed := fr.frameAllowed(c, "r!f", fr.entryHeap)
+	allowed := fr.frameAllowed(c, "r!f", entry)
 	if allowed == "true" {
 		return ""
 	}
-	body := implies(and(app("<", "0", "r!f"), app("<=", "r!f", fr.ctr(fr.entryHeap)), not(allowed)), eq(sel(cur, "r!f"), sel(old, "r!f")))
+	body := implies(and(app("<", "0", "r!f"), app("<=", "r!f", fr.ctr(entry)), not(allowed)), eq(sel(cur, "r!f"), sel(old, "r!f")))
 	// field-level targets: at those objects the unlisted fields keep their values
 	var fieldFacts []string
 	var fieldRefs []string
@@ -735,7 +761,7 @@ func (fr *Frame) frameFormula(c string, h Heap) string {
 		fieldRefs = append(fieldRefs, not(eq("r!f", t.ref)))
 	}
 	if len(fieldRefs) > 0 {
-		body = implies(and(app("<", "0", "r!f"), app("<=", "r!f", fr.ctr(fr.entryHeap)), not(allowed), and(fieldRefs...)), eq(sel(cur, "r!f"), sel(old, "r!f")))
+		body = implies(and(app("<", "0", "r!f"), app("<=", "r!f", fr.ctr(entry)), not(allowed), and(fieldRefs...)), eq(sel(cur, "r!f"), sel(old, "r!f")))
 	}
 	return and("(forall ((r!f Int)) "+body+")", and(fieldFacts...))
 }
@@ -762,6 +788,7 @@ func (fr *Frame) loopLatch(from, head *ssa.BasicBlock, li *loopInfo) {
 		}
 	}
 	if li.spec == nil {
+		fr.autoTermination(from, head, li, edge)
 		return
 	}
 	env := fr.loopEnv(li, h, func(phi *ssa.Phi) Val { return fr.valOf(phi.Edges[pi]) })
@@ -784,10 +811,40 @@ func (fr *Frame) loopLatch(from, head *ssa.BasicBlock, li *loopInfo) {
 		}
 		o := u.oblig("decreases", fmt.Sprintf("loop %d measure decreases and is bounded: %s", li.ordinal, li.spec.Decreases.Text), implies(edge, g), nil)
 		o.Pos = li.spec.Decreases.Where
-	} else if fr.top || fr.ct != nil {
-		// no termination measure given
-		u.oblig("decreases", fmt.Sprintf("loop %d of %s has no decreases clause", li.ordinal, fr.fn.Name()), implies(edge, "false"), nil).Detail = "missing-measure"
+	} else {
+		fr.autoTermination(from, head, li, edge)
 	}
+}
+
+// autoTermination: a loop without a decreases clause.  Range loops over a slice
+// (the SSA builder's rangeindex pattern: k = phi(-1, k+1); if k+1 < n) terminate
+// because the hidden index increases towards the fixed bound n; anything else
+// needs an explicit measure.
+func (fr *Frame) autoTermination(from, head *ssa.BasicBlock, li *loopInfo, edge string) {
+	u := fr.u
+	for _, ins := range head.Instrs {
+		phi, ok := ins.(*ssa.Phi)
+		if !ok {
+			break
+		}
+		if phi.Comment != "rangeindex" {
+			continue
+		}
+		// find "t = phi + 1; c = t < n; if c" in the header with n defined outside the loop
+		if iff, ok := head.Instrs[len(head.Instrs)-1].(*ssa.If); ok {
+			if cmp, ok := iff.Cond.(*ssa.BinOp); ok && cmp.Op == token.LSS {
+				if inc, ok := cmp.X.(*ssa.BinOp); ok && inc.Op == token.ADD && inc.X == phi {
+					if bi, isIns := cmp.Y.(ssa.Instruction); !isIns || !li.body[bi.Block().Index] {
+						// structural argument: recorded as a discharged obligation without a solver call
+						o := u.oblig("decreases", fmt.Sprintf("loop %d of %s: range loop, hidden index increases towards a fixed bound", li.ordinal, fr.fn.Name()), "true", nil)
+						o.Detail = "range-loop"
+						return
+					}
+				}
+			}
+		}
+	}
+	u.oblig("decreases", fmt.Sprintf("loop %d of %s has no decreases clause", li.ordinal, fr.fn.Name()), implies(edge, "false"), nil).Detail = "missing-measure"
 }
 
 // activeInvs: invariants tagged with property ids are only used when checking one of those properties.
@@ -865,4 +922,26 @@ func (fr *Frame) refineFieldMods(li *loopInfo) {
 			li.fieldMods[c] = fms
 		}
 	}
+}
+
+func isRangeIndexPhi(phi *ssa.Phi) bool {
+	for _, e := range phi.Edges {
+		switch x := e.(type) {
+		case *ssa.Const:
+			if x.Value == nil || x.Value.String() != "-1" {
+				return false
+			}
+		case *ssa.BinOp:
+			if x.Op != token.ADD || x.X != phi {
+				return false
+			}
+			c, ok := x.Y.(*ssa.Const)
+			if !ok || c.Value == nil || c.Value.String() != "1" {
+				return false
+			}
+		default:
+			return false
+		}
+	}
+	return true
 }
